@@ -326,13 +326,27 @@ pub fn gen_stream(ctx: &mut Ctx, k: &BKnobs, max_msgs: usize) -> Stream {
     let mut started = 0usize;
     let mut script_open = true;
     let mut last_actor: Option<u32> = None;
+    // starvation (a slow or stalled sender of one chunk stream): in some runs the first
+    // multi-chunk message is held back after its first chunk until the other chunk streams have
+    // sent `hold` chunks -- a uniform scheduler never leaves a message waiting for a thousand
+    // chunks of other traffic
+    let starve_hold: Option<u64> = if k.m >= 2 && ctx.ch.chance("sched.starve", 1, 10) { Some(*ctx.ch.pick("sched.starvelen", &[200u64, 1100, 2600])) } else { None };
+    let mut frozen: Option<(u32, u64)> = None;
+    let mut starve_used = false;
+    let mut force_chunks: Option<u64> = None;
     loop {
         if !ctx.step() {
             break;
         }
         // options: 0 = (script) start next op / end script; 1.. = continue active cursor i-1
         let can_start = script_open && started < max_msgs && active.len() < k.m;
-        let n_opts = active.len() as u64 + can_start as u64;
+        let eligible: Vec<usize> = (0..active.len()).filter(|i| frozen.map(|(c, _)| c != active[*i].csid).unwrap_or(true)).collect();
+        if eligible.is_empty() && !can_start && frozen.is_some() {
+            // nothing else to send: the held-back message goes on
+            frozen = None;
+            continue;
+        }
+        let n_opts = eligible.len() as u64 + can_start as u64;
         if n_opts == 0 {
             break;
         }
@@ -346,11 +360,24 @@ pub fn gen_stream(ctx: &mut Ctx, k: &BKnobs, max_msgs: usize) -> Stream {
         } else {
             let p = ctx.ch.draw("sched.pick", n_opts) as usize;
             if can_start {
-                p
+                if p == 0 {
+                    0
+                } else {
+                    eligible[p - 1] + 1
+                }
             } else {
-                p + 1
+                eligible[p] + 1
             }
         };
+        if let Some((c, left)) = frozen {
+            // every chunk sent by somebody else counts
+            if left <= 1 {
+                frozen = None;
+                ctx.probe("b.starved_message_resumed_after_hold");
+            } else {
+                frozen = Some((c, left - 1));
+            }
+        }
         if pick == 0 {
             // start something new
             let kind = ctx.ch.weighted("op.kind", &[2, 12, if active.is_empty() || k.setchunk_midflight { k.setchunk_w } else { 0 }]);
@@ -391,7 +418,15 @@ pub fn gen_stream(ctx: &mut Ctx, k: &BKnobs, max_msgs: usize) -> Stream {
                 _ => {
                     let avoid: Vec<u32> = active.iter().map(|c| c.csid).collect();
                     let csid = draw_csid(ctx, k, &avoid);
-                    let m = draw_msg(ctx, k, &enc, csid, k.m > 1);
+                    let mut m = draw_msg(ctx, k, &enc, csid, k.m > 1);
+                    if let Some(n) = force_chunks.take() {
+                        // traffic for the other chunk streams while one message is held back
+                        if !matches!(m.type_id, 1..=6) {
+                            let c = enc.chunk_size.max(1) as u64;
+                            let len = (n * c).min(c.saturating_mul(5_000)).min(1 << 20) as usize;
+                            m.payload = crate::choice::expand_bytes(ctx.ch.sub_seed("bytes.seed"), len);
+                        }
+                    }
                     let f = draw_fmt(ctx, k, &enc, csid, &m);
                     ctx.tr(|| format!("  peer start msg [{}] on csid {} fmt {}", m.brief(), csid, f));
                     let mut cur = EncCursor {
@@ -419,6 +454,12 @@ pub fn gen_stream(ctx: &mut Ctx, k: &BKnobs, max_msgs: usize) -> Stream {
                     if cur.done() {
                         st.completed.push(cur.msg);
                     } else {
+                        if let (Some(hold), false, None) = (starve_hold, starve_used, frozen) {
+                            frozen = Some((cur.csid, hold));
+                            starve_used = true;
+                            force_chunks = Some(hold + 20);
+                            ctx.probe("b.message_held_back");
+                        }
                         active.push(cur);
                     }
                 }
